@@ -62,7 +62,8 @@ func (pdb *PebbleKV) DeletePrefix(prefix []byte) error {
 		found = false
 		wb := make([][]byte, 0, deleteBlockSize)
 		it := pdb.db.NewIter(&pebble.IterOptions{LowerBound: prefix})
-		for ; it.Valid() && bytes.HasPrefix(it.Key(), prefix) && len(wb) < deleteBlockSize-1; it.Next() {
+		// a new iterator is not positioned: without First() nothing was ever deleted
+		for it.First(); it.Valid() && bytes.HasPrefix(it.Key(), prefix) && len(wb) < deleteBlockSize-1; it.Next() {
 			wb = append(wb, copyBytes(it.Key()))
 		}
 		it.Close()
@@ -80,10 +81,11 @@ func (pdb *PebbleKV) DeletePrefix(prefix []byte) error {
 // HasKey returns true if the key is exists in kvstore
 func (pdb *PebbleKV) HasKey(id []byte) bool {
 	_, c, err := pdb.db.Get(id)
-	c.Close()
 	if err != nil {
+		// no closer is returned with an error
 		return false
 	}
+	c.Close()
 	return true
 }
 
@@ -106,10 +108,10 @@ type pebbleTransaction struct {
 
 func (ptx pebbleTransaction) HasKey(id []byte) bool {
 	_, c, err := ptx.db.Get(id)
-	c.Close()
 	if err != nil {
 		return false
 	}
+	c.Close()
 	return true
 }
 
@@ -196,11 +198,16 @@ func (pit *pebbleIterator) Seek(id []byte) error {
 // Seek moves the iterator to a new location
 func (pit *pebbleIterator) SeekReverse(id []byte) error {
 	pit.forward = false
-	if !pit.iter.SeekGE(id) {
-		return io.EOF
+	// position at the largest key <= id (SeekLT would miss id itself)
+	found := pit.iter.SeekGE(id)
+	if !found {
+		// every key is below id: the reverse scan starts at the last one
+		found = pit.iter.Last()
+	} else if bytes.Compare(id, pit.iter.Key()) < 0 {
+		found = pit.iter.Prev()
 	}
-	if bytes.Compare(id, pit.iter.Key()) < 0 {
-		pit.iter.Prev()
+	if !found {
+		return io.EOF
 	}
 	pit.key = copyBytes(pit.iter.Key())
 	pit.value = copyBytes(pit.iter.Value())
